@@ -25,7 +25,7 @@ func (C19) ID() string    { return "C19" }
 func (C19) Level() string { return "fault_enumeration" }
 func (C19) Runs(t core.Tier) int {
 	if t == core.Thorough {
-		return 2_000_000
+		return 1_200_000
 	}
 	return 40_000
 }
